@@ -1,10 +1,10 @@
 ------------------------------- MODULE TxnGen -------------------------------
 (* Behaviour generator for Txn (interactive mode: C05, C08, C20).            *)
 EXTENDS TxnMC, Json
-CONSTANT Depth
+CONSTANTS Depth, GenActs   \* GenActs: the statements this generator draws from (all, or a family in focus)
 VARIABLE hist
 GenInit == Init /\ hist = <<[act |-> "init", disk |-> disk]>>
 GenNext == /\ Len(hist) <= Depth
-           /\ \E a \in Actions : Do(a) /\ hist' = Append(hist, [a |-> a, exp |-> out'])
+           /\ \E a \in GenActs : Do(a) /\ hist' = Append(hist, [a |-> a, exp |-> out'])
 Emit == (Len(hist) = Depth + 1) => PrintT(<<"TRACE", ToJson(hist)>>)
 =============================================================================
